@@ -43,7 +43,7 @@ struct Log
     bool overflow = false;
     long ctxmut = 0;
     void add(Event&& e) { if (ev.size() < max_events) ev.emplace_back(std::move(e)); else overflow = true; }
-    void reset() { ev.clear(); cur.clear(); next_id = 0; base = nullptr; base_len = 0; overflow = false; ctxmut = 0; }
+    void reset() { ev.clear(); cur.clear(); next_id = 0; base = nullptr; base_len = 0; overflow = false; ctxmut = 0; }      // (object ids keep counting: objects may outlive a job)
 };
 inline thread_local Log tl_log;
 
@@ -128,11 +128,23 @@ struct Tree
     std::vector<std::shared_ptr<Tree>> ch;
 };
 
+// Lifecycle tracking (C14): with VERIF_TRACK set every special member of the value type is an event carrying object ids.
+inline const bool g_track = getenv("VERIF_TRACK") != nullptr;
+inline thread_local long tl_next_oid = 0;
+inline void vlog(const char* k, long a, long b) { Event e; e.k = k; e.a = { a, b }; tl_log.add(std::move(e)); }
+
 struct Node
 {
     std::shared_ptr<Tree> t;
-    Node() = default;
-    explicit Node(std::shared_ptr<Tree> t) : t(std::move(t)) {}
+    long oid = -1;
+    long tid() const { return t ? long(t->id) : -1; }
+    Node() { if (g_track) { oid = tl_next_oid++; vlog("v_new", oid, -1); } }
+    explicit Node(std::shared_ptr<Tree> tr) : t(std::move(tr)) { if (g_track) { oid = tl_next_oid++; vlog("v_new", oid, tid()); } }
+    Node(const Node& o) : t(o.t) { if (g_track) { oid = tl_next_oid++; vlog("v_copy", o.oid, oid); } }
+    Node(Node&& o) noexcept : t(std::move(o.t)) { if (g_track) { oid = tl_next_oid++; vlog("v_move", o.oid, oid); } }
+    Node& operator=(const Node& o) { t = o.t; if (g_track) vlog("v_cassign", o.oid, oid); return *this; }
+    Node& operator=(Node&& o) noexcept { t = std::move(o.t); if (g_track) vlog("v_massign", o.oid, oid); return *this; }
+    ~Node() { if (g_track) vlog("v_dtor", oid, -1); }
     // rules WITHOUT a functor construct the left-side value from the right-side values: LValueType(values...).
     // The variadic constructor observes that call (a unit rule over a nonterminal is a plain move and has no event);
     // the initializer_list constructor exists only to be observed if it is ever chosen instead.
@@ -178,15 +190,18 @@ struct TermF
 // argument adaptors: what a rule functor may receive
 inline void take_arg(Tree& parent, std::vector<long>& ids, std::vector<long>& lines, std::vector<long>& cols, Node&& n)
 {
+    if (g_track) vlog("v_take", n.oid, n.tid());       // the functor consumes the value held by this object
     ids.push_back(n.t ? n.t->id : -1); lines.push_back(-1); cols.push_back(-1);
     parent.ch.push_back(std::move(n.t));
 }
 inline void take_arg(Tree& parent, std::vector<long>& ids, std::vector<long>& lines, std::vector<long>& cols, ctpg::term_value<Node>&& tv)
 {
-    Node n = tv.get_value();
-    if (n.t) { n.t->line = tv.get_line(); n.t->col = tv.get_column(); }
-    ids.push_back(n.t ? n.t->id : -1); lines.push_back(tv.get_line()); cols.push_back(tv.get_column());
-    parent.ch.push_back(std::move(n.t));
+    const Node& n = tv.get_value();                     // (term_value offers no way to move its value out: read only)
+    if (g_track) vlog("v_take", n.oid, n.tid());
+    std::shared_ptr<Tree> tr = n.t;
+    if (tr) { tr->line = tv.get_line(); tr->col = tv.get_column(); }
+    ids.push_back(tr ? tr->id : -1); lines.push_back(tv.get_line()); cols.push_back(tv.get_column());
+    parent.ch.push_back(std::move(tr));
 }
 inline void take_arg(Tree& parent, std::vector<long>& ids, std::vector<long>& lines, std::vector<long>& cols, ctpg::no_type&&)
 {
@@ -223,9 +238,11 @@ Node::Node(A0&& a0, A&&... a)
     Event e; e.k = "dcall"; e.a = { tr->id }; e.lst = { ids, lines, cols };
     L.add(std::move(e));
     t = tr;
+    if (g_track) { oid = tl_next_oid++; vlog("v_new", oid, tid()); }
 }
 inline Node::Node(std::initializer_list<Node> il)
 {
+    if (g_track) { oid = tl_next_oid++; vlog("v_new", oid, -1); }
     Event e; e.k = "ilist"; e.a = { long(il.size()) };
     tl_log.add(std::move(e));
 }
@@ -496,6 +513,9 @@ void run_job(const P& p, const Job& j, const std::string& gid, std::string& out)
     out += ",\"partial\":"; jstr(out, L.cur);
     out += ",\"overflow\":"; out += L.overflow ? "true" : "false";
     out += ",\"stream_text\":"; jstr(out, stream_text);
+    std::string treejson = "null";
+    if (res.has_value()) { treejson.clear(); jtree(treejson, res->t); }
+    res.reset();          // the caller drops the result: from here on every value of this parse must have been destroyed
     // VERIF_LIGHT: very long inputs are run for the observers only - no tree, only out-of-range events
     static const bool light = getenv("VERIF_LIGHT") != nullptr;
     if (light)
@@ -506,7 +526,7 @@ void run_job(const P& p, const Job& j, const std::string& gid, std::string& out)
     }
     else
     {
-    out += ",\"tree\":"; if (res.has_value()) jtree(out, res->t); else out += "null";
+    out += ",\"tree\":" + treejson;
     out += ",\"events\":"; jevents(out, L.ev);
     }
     out += "}\n";
